@@ -343,7 +343,7 @@ def agreement_abs(tier, wd):
 def design_net(tier, wd, vh, seed=1):
     """Closed model (C01): random simulation of spec/MC_Net.tla. The faithful model with the KF-1 deviation switched on must
     exhibit the known fork (and it is executed on real nodes); with the deviation switched off no fork may be found."""
-    num, cap = (6000, 600) if tier == 'quick' else (400000, 3000)
+    num, cap = (2500, 300) if tier == 'quick' else (400000, 3000)     # quick: about 1.5 M states per configuration
     runs = [
         (net_cfg('net-kf1-regression', byz=(2,), maxview=0, dev=True), dict(num=400000, depth=40, seed=seed, dump=True), 300),
         (net_cfg('net-nodev-byz-primary0', byz=(2,), dev=False, invs=('Agreement', 'Certificates', 'AbsCertificate'), props=('AbsOneCommit',)), dict(num=num, depth=45, seed=seed + 1, dump=True), cap),
